@@ -41,7 +41,7 @@ ASSUMPTIONS = [
 ]
 SHARD_TIMEOUT = {"quick": 900, "thorough": 5400}
 
-PROFILE = dict(interpreted_functions=0.15, undefined_init=0.25, invariants=0.3)
+PROFILE = dict(interpreted_functions=0.15, undefined_init=0.25, invariants=0.3, coinciding_forall=0.08)
 BOUNDS = {"quick": dict(n=1000, depth=3, max_states=40, max_inst=40, walk=45), "thorough": dict(n=3000, depth=5, max_states=250, max_inst=60, walk=120)}
 
 
@@ -282,6 +282,22 @@ def explore(pb, rec, feats, wbase, b, res):
                 )
                 return
             res.case()
+            if r.status == DONTCARE and r.reason == seqsem.COINCIDING:
+                # literal reading of the statement: every binding of the forall increase/decrease accumulates
+                r2 = seqsem.succ(pb, rs, a, args, strict_forall=True)
+                if r2.status != DONTCARE:
+                    res.count("coinciding_forall_incdec_judged")
+                    exp = r2.state if r2.status == OKAY else None
+                    got = seqsem.read_state(pb, ns, gfl) if ns is not None else None
+                    if exp != got or bool(lib_app) != (exp is not None):
+                        viol(
+                            "forall-incdec-multiplicity:" + ("successor-mismatch" if exp is not None and got is not None else "applicability-mismatch"),
+                            f"{step} in {seqsem.show_state(rs)}: several bindings of one forall increase/decrease hit one ground fluent; "
+                            f"reference (every binding accumulates): {r2.status}/{r2.reason} {seqsem.show_state(exp) if exp else None}; "
+                            f"simulator: is_applicable={lib_app} {seqsem.show_state(got) if got else None}",
+                            path=path,
+                            step=step,
+                        )
             if r.status == DONTCARE:
                 res.count("dontcare:" + str(r.reason))
                 if ns is not None and depth < b["depth"]:
